@@ -35,11 +35,14 @@ _CMP = {z3.Z3_OP_LT, z3.Z3_OP_LE, z3.Z3_OP_GT, z3.Z3_OP_GE, z3.Z3_OP_EQ, z3.Z3_O
 
 class Explorer:
     def __init__(self, seed=0, maxpaths=256, npool=400, feas_ms=(3000, 20000), scale=1.0,
-                 maxdecisions=400, follow_nominal=False):
+                 maxdecisions=400, follow_nominal=False, time_budget=None):
         # follow_nominal: explore ONLY the path taken by the nominal geometry (no forks); obligations are then decided for all
         # values that take the same branches as the nominal point (an open set around it); the other sides are counted as
         # not explored by design
         self.follow_nominal = follow_nominal
+        # time_budget (s): no NEW path is started after it; the paths completed so far keep their verdicts and the rest is counted
+        # as not explored (bound_hit), instead of the whole configuration being killed by the harness timeout
+        self.time_budget = time_budget
         self.seed = seed
         self.maxpaths = maxpaths
         self.npool = npool
@@ -381,9 +384,12 @@ class Explorer:
     def run(self, fn, on_path=None):
         self.stack = [([], [])]
         n = 0
+        import time as _time
+        t_start = _time.time()
         while self.stack:
-            if n >= self.maxpaths:
+            if n >= self.maxpaths or (self.time_budget is not None and n > 0 and _time.time() - t_start > self.time_budget):
                 self.stats['bound_hit'] = True
+                self.stats['paths_left_on_the_stack'] = len(self.stack)
                 break
             prefix, extra = self.stack.pop()
             self._reset(prefix, extra)
